@@ -28,7 +28,7 @@ CLAIM = {
     "note": "Operands are restricted to the pure fragment (constants, variables, probe calls, arithmetic/comparisons); containers are "
             "slices, slices of slices, ASCII strings, one-entry maps (iteration order unobservable) and ranges with positive step (the "
             "negative-step discrepancy is C04's finding). Go's range/append semantics are MiniGo evaluator rules (assumed). gogen "
-            "(outside /repo) is modelled as observed. Known finding: blank loop variable `for _ <- xs`.",
+            "(outside /repo) is modelled as observed. Blank loop variables (`for _ <- xs` -> `for range xs`) are part of the generated instances.",
 }
 
 NAMES = {"x": 1, "y": 2, "z": 3, "i": 11, "j": 12, "k": 13, "row": 20}
@@ -279,14 +279,22 @@ def fixed_cases():
     return cs
 
 
-def finding_cases():
+def blank_cases():
+    """Blank loop variables (`for _ <- xs` is emitted as `for range xs` since the repair in /repo)."""
     P = lambda key, val, x, cond=None: {"key": key, "val": val, "x": x, "cond": cond}
     return [
-        (mk_case("list", [P(None, None, ("xs",))], ("i", 1)), "blank-loop-variable"),
-        (mk_case("exists", [P(None, None, ("xs",))]), "blank-loop-variable"),
-        (mk_for(P(None, None, ("xs",)), ("i", 1)), "blank-loop-variable"),
-        (mk_case("list", [P(None, "x", ("xs",)), P(None, None, ("ys",))], V("x")), "blank-loop-variable"),
+        mk_case("list", [P(None, None, ("xs",))], ("p", 1, ("i", 1))),
+        mk_case("exists", [P(None, None, ("xs",))]),
+        mk_case("exists", [P(None, None, ("zs",))]),
+        mk_for(P(None, None, ("pl", 2, ("xs",))), ("i", 1)),
+        mk_case("list", [P(None, "x", ("xs",)), P(None, None, ("ys",))], V("x")),
+        mk_case("sel2", [P(None, None, ("map1", 7, 70))], ("i", 9)),
+        mk_case("list", [P("i", None, ("str", "ab"))], V("i")),
     ]
+
+
+def finding_cases():
+    return []
 
 
 def used_vars(e, acc):
@@ -405,7 +413,11 @@ def gen_case1(rng):
         if p["key"] and p["key"] not in used:
             p["key"] = None
         if p["val"] not in used:
-            return None
+            if base_kind(p["x"]) == "range":
+                return None           # `for _ <- a:b:c` goes through toForStmt (C04), not through for-range
+            p["val"] = None           # blank loop variable
+    if all(p["val"] is None and p["key"] is None for p in phrases) and rng.below(2):
+        return None                   # keep fully blank instances a minority
     if kind == "for":
         return mk_for(phrases[0], elt)
     if kind == "exists":
@@ -431,22 +443,25 @@ def run(ctx):
     open(os.path.join(d, "go.mod"), "w").write(gomod(vlib.REPO))
     shutil.copy(os.path.join(vlib.REPO, "go.sum"), os.path.join(d, "go.sum"))
 
-    fixed = fixed_cases()
+    fixed = fixed_cases() + blank_cases()
     finds = finding_cases()
     cases = fixed + [c for c, _ in finds]
     nfixed = len(cases)
     for _ in range(ctx.n(150, 3000)):
         cases.append(gen_case(ctx.rng))
     json.dump([{"sugar": c["sugar"], "doc": c["doc"]} for c in cases], open(os.path.join(d, "cases.json"), "w"))
+    ctx.log("phase: gen: compile program with the real compiler")
     rc, out = ctx.run([impl, "gen", "-dir", d, "-cases", os.path.join(d, "cases.json")], cwd=d, timeout=400)
     if rc != 0:
         ctx.broken("correspondence(c02: compile the program with the real compiler)", out[-1500:])
         return
     status = json.load(open(os.path.join(d, "status.json")))["status"]
+    ctx.log("phase: go build")
     rc, out = ctx.run("go build -o prog . 2>&1", cwd=d, timeout=400)
     if rc != 0:
         ctx.broken("correspondence(c02: go build of the compiled program)", out[-1500:])
         return
+    ctx.log("phase: run + model")
     rc, out = ctx.run([os.path.join(d, "prog")], timeout=120)
     if rc != 0:
         ctx.broken("correspondence(c02: run of the program)", "rc=%d %s" % (rc, out[-800:]))
@@ -490,8 +505,8 @@ def run(ctx):
                    "comprehensions with 1-3 for-phrases (key/value forms, filters, inner phrases using outer variables), for-phrase statements, "
                    "`a <- v,..` / `a <- b...`; containers: slices, slice of slices, literal slices, ASCII strings, one-entry maps, ranges with "
                    "positive step; probe calls p/pb/pl at random places make evaluation order visible; each instance also as explicit Go loops; "
-                   "non-trivial = distinct instance with a non-empty result or trace; NOT generated: blank loop variables outside the "
-                   "known-finding set, negative-step ranges (C04), multi-entry maps (iteration order), non-int element types"
+                   "non-trivial = distinct instance with a non-empty result or trace; blank loop variables are generated; NOT generated: "
+                   "negative-step ranges (C04), multi-entry maps (iteration order), non-int element types"
                    % (len(fixed), len(finds), len(cases) - nfixed),
               shape_histogram=dict(sorted(hist.items(), key=lambda kv: -kv[1])[:40]))
     ctx.assume("Go's for-range over slices / strings (ASCII) / maps and append behave as the MiniGo evaluator rules say",
